@@ -47,3 +47,21 @@ pub proof fn lemma_ready_means_preds_done(w: World, counts: Seq<usize>, tx_some:
         assert(pend(w, c)(e));
     }
 }
+
+/// pending edges into c while the out-edges of p are being retired: the first jj out-edges of p no longer count
+pub open spec fn pend_step(w: World, c: int, p: int, oe: Seq<int>, jj: int) -> spec_fn(int) -> bool {
+    |e: int| w.es[e].dst == c && !w.done_recv.contains(w.es[e].src) && !(w.es[e].src == p && in_prefix(oe, jj, e))
+}
+
+/// the done set is a set of ids below n that misses p: it has fewer than n elements
+pub proof fn lemma_done_not_full(w: World, p: int)
+    requires world_wf(w), 0 <= p < w.n, !w.done_recv.contains(p),
+    ensures w.done_recv.len() < w.n,
+{
+    vstd::set_lib::lemma_int_range(0, w.n);
+    let full = vstd::set_lib::set_int_range(0, w.n);
+    let s2 = w.done_recv.insert(p);
+    assert(s2.subset_of(full));
+    vstd::set_lib::lemma_len_subset(s2, full);
+}
+
